@@ -102,6 +102,31 @@ def strict_api_refusals(run, rng, dist):
                          'field of a base datatype', version=v, segment=fname_[:3], field=fname_, datatype=dt_)
             except (HL7apyException, ValueError):
                 pass
+        # STRICT accepts a subset of TOLERANT at the constructor level too: the same call under both levels
+        for (cls, nm, dt) in (('Component', 'VARIES_1', 'CE' if 'CE' in lib.DATATYPES_STRUCTS else None),
+                              ('Component', 'CX_1', None), ('Component', None, 'ST'), ('SubComponent', 'HD_1', None),
+                              ('Field', 'PID_3', None), ('Field', 'ZXX_1', None), ('Component', 'VARIES_2', 'ST')):
+            if dt is None and nm == 'VARIES_1':
+                continue
+            klass = {'Component': Component, 'SubComponent': SubComponent, 'Field': Field}[cls]
+
+            def build(level):
+                kw = {'version': v, 'validation_level': level}
+                if dt is not None:
+                    kw['datatype'] = dt
+                return klass(nm, **kw) if nm is not None else klass(**kw)
+            try:
+                build(S.STRICT)
+            except Exception:  # noqa
+                continue
+            dist['api_probes'] = dist.get('api_probes', 0) + 1
+            try:
+                build(S.TOLERANT)
+            except Exception as ex:  # noqa
+                run.fail('strict-accepts-tolerant-rejects-api', 'a constructor call accepted under STRICT is rejected under '
+                         'TOLERANT', version=v, cls=cls, name=nm, datatype=dt, exc=type(ex).__name__,
+                         varies_name_with_complex_datatype=(nm is not None and nm.startswith('VARIES') and dt is not None
+                                                            and dt not in lib.get_base_datatypes()))
         for sname in rng.sample(names, 6):
             rows = lib.SEGMENTS[sname][1]
             row = rng.choice(rows)
